@@ -59,7 +59,18 @@ def canaries_in(head):
     return sorted(out)
 
 
-async def realise(ctx, sq, n, scen, rnd):
+PEER_TABLE = {}      # scenario number -> responder, for requests that reach the origin through the originserver cache_peer
+
+
+async def peer_responder(q, oc):
+    r = PEER_TABLE.get(q.target.rstrip('/').rsplit('/', 1)[-1])
+    if r is None:
+        await oc.send(peers.response_head(404, 'NF', [('Content-Length', '0')]))
+        return False
+    return await r(q, oc)
+
+
+async def realise(ctx, sq, n, scen, rnd, peer_port=None):
     par = scen['par']
     rec = peers.Rec()
     base = 10000 + n * 100
@@ -72,6 +83,22 @@ async def realise(ctx, sq, n, scen, rnd):
             seen['teOk'] = (not q.head.has('Transfer-Encoding')) or (q.head.get_all('Transfer-Encoding') == ['chunked'] and q.framing == 'chunked' and q.complete)
             await oc.send(peers.response_head(200, 'OK', [('Content-Length', '2'), ('Cache-Control', 'no-store')]) + b'ok')
             return False
+        if peer_port:
+            # the origin server is reached as a cache_peer ... originserver login=PASS: still an origin server
+            PEER_TABLE[str(n)] = responder
+            method = rnd.choice(['GET', 'POST'])
+            c = peers.Client(rec, sq.port)
+            await c.open()
+            hs = [h for h in hdrs if h[0] != 'Trailer' or method == 'POST']
+            await c.send(peers.request_bytes(method, 'http://127.0.0.1:%d/c04p/%d' % (peer_port, n), hs, body=(b'hello' if method == 'POST' else None), vid=n, host='127.0.0.1:%d' % peer_port))
+            await c.response(method, 8.0, vid=n)
+            c.close()
+            PEER_TABLE.pop(str(n), None)
+            if 'head' not in seen:
+                return None
+            ev = [{'e': 'Sent', 'fields': [{'canary': f['canary'], 'cls': f['cls']} for f in fields]},
+                  {'e': 'Seen', 'canaries': canaries_in(seen['head']), 'teOk': bool(seen['teOk'])}]
+            return {'ev': ev, 'par': dict(par, via='originserver-peer'), 'hdrs': hdrs, 'fields': fields}
         o = await peers.Origin(rec, responder).start()
         url = 'http://127.0.0.1:%d/c04/%d' % (o.port, n)
         method = rnd.choice(['GET', 'POST'])
@@ -164,6 +191,26 @@ def run(ctx):
             ctx.violation('squid exited during the run', {'kind': 'exit', 'log': sq.tail_log()})
     finally:
         sq.stop()
+    # the same request-direction classes with the origin server configured as a cache_peer (originserver, login=PASS)
+    pport = squidctl.free_port()
+    sq2 = squidctl.Squid(ctx, tree, name='c04p', clock=False,
+                         conf_extra='cache_peer 127.0.0.1 parent %d 0 no-query no-digest no-netdb-exchange originserver login=PASS name=os\nnever_direct allow all\n' % pport)
+    try:
+        async def main2():
+            po = await peers.Origin(peers.Rec(), peer_responder, name='os').start(port=pport)     # listening before Squid probes its peer
+            sq2.start()
+            try:
+                reqs = [s for s in scens if s['par']['dir'] == 'req'][:(400 if ctx.thorough else 80)]
+                return await escen.gather_limited([realise(ctx, sq2, 700000 + i, s, random.Random(ctx.seed * 271 + i), peer_port=pport) for i, s in enumerate(reqs)], limit=10)
+            finally:
+                await po.stop()
+        viapeer = [o for o in asyncio.run(main2()) if o]
+        if not sq2.alive():
+            ctx.violation('squid exited during the run', {'kind': 'exit', 'log': sq2.tail_log()})
+    finally:
+        sq2.stop()
+    ctx.cov['requests_via_originserver_peer'] = len(viapeer)
+    out += viapeer
     rej = escen.validate(ctx, os.path.join(SPEC, 'Trace_HopByHop.tla'), os.path.join(SPEC, 'Trace_HopByHop.cfg'), [{'ev': o['ev']} for o in out], 'hop')
     ctx.log('realised %d messages; P-rejected %d' % (len(out), len(rej)))
     for i in rej[:5]:
@@ -178,4 +225,4 @@ def run(ctx):
         ctx.sample({'par': o['par'], 'headers_sent': o['hdrs'], 'canaries_seen_on_other_side': o['ev'][1]['canaries']})
     ctx.cov['rule'] = ('classes = HopScen.tla (direction x nominated subset of three extension fields x case x OWS x empty list elements x split over two Connection '
                        'fields x position x duplicate token); every field value is a unique canary; the header block Squid emits on the other side (for responses '
-                       'also the cached copy) is searched for canaries; TLC validates against HopByHop.tla. Non-trivial = distinct class.')
+                       'also the cached copy) is searched for canaries; the request classes also run with the origin server configured as cache_peer originserver login=PASS; TLC validates against HopByHop.tla. Non-trivial = distinct class.')
